@@ -1,6 +1,6 @@
 SPECIFICATION Spec
 CONSTANTS
-  MaxLen = 6
+  MaxLen = 5
   TypeA = 8
   TypeX = 1
   CheckCrash = FALSE
